@@ -200,6 +200,42 @@ def shard_run(binpath, seed, sh, nshards, thorough):
     return res
 
 
+def keyid_variants(binpath, res):
+    """key ids of the same material under other descriptions (hash-algorithm list absent / empty / other), obtained by
+    parsing the JSON form; each must be the SHA-256 of the reference encoding of that very description"""
+    W = scen.World(binpath)
+    paths, wants = [], []
+    for name, info in W.ki.items():
+        for v in ("absent", "empty", "sha512", "three"):
+            pub = copy_pub(info["pub"])
+            pub.pop("keyid", None)
+            if v == "absent":
+                pub.pop("keyid_hash_algorithms", None)
+            elif v == "empty":
+                pub["keyid_hash_algorithms"] = []
+            elif v == "sha512":
+                pub["keyid_hash_algorithms"] = ["sha512"]
+            else:
+                pub["keyid_hash_algorithms"] = ["sha256", "sha512", "sha3-256"]
+            paths.append({"how": "json", "value": pub})
+            wants.append((name, v, ref_keyid(pub)))
+    o = common.run_batch(binpath, [{"op": "keys12", "paths": paths}])[0]
+    for p, (name, v, want), r in zip(paths, wants, o.get("paths", [])):
+        if "ok" not in r:
+            res.classes[f"keyid_variant_rejected:{v}"] += 1
+            continue
+        res.note(["keyid-variant", name, v], True, cls=f"keyid_variant:{v}")
+        if r["ok"]["keyid"] != want:
+            res.violate(f"keyid-differs-from-reference:hash-algorithm-list-{v}",
+                        f"key {name} described with keyid_hash_algorithms {v}: id {r['ok']['keyid']}, reference encoding gives {want}",
+                        {"op": "keys12", "paths": [p], "meta": {"kind": "keyid_variant"}}, r, want)
+
+
+def copy_pub(p):
+    import copy as _c
+    return _c.deepcopy(p)
+
+
 def keyids(binpath, res):
     W = scen.World(binpath)
     for name, info in W.ki.items():
@@ -312,6 +348,7 @@ def main(ctx):
     for p in common.pmap(shard_run, [(ctx.bin, ctx.seed, s, n, ctx.thorough) for s in range(n)]):
         res.merge(p)
     keyids(ctx.bin, res)
+    keyid_variants(ctx.bin, res)
     openssl_interop(ctx.bin, res, ctx.seed, 24 if not ctx.thorough else 500)
     res.extras["exhaustive_subspaces"] = [
         "all strings of length <= 2 (quick) / <= 3 (thorough) over {backslash, quote, n, LF, TAB, CR, U+0001, a, é, U+2028, 😀, DEL} in each field class",
@@ -326,5 +363,5 @@ def main(ctx):
         assumptions=["olpc_canon() transliterates securesystemslib's encode_canonical", "OpenSSL CLI is a correct foreign signer/verifier",
                      "ed25519 determinism"],
         required=["agrees", "chars:LF", "chars:TAB", "chars:backslash", "chars:quote", "chars:non-ascii", "keyid:rsa",
-                  "keyid:ed25519", "keyid:ecdsa", "field:unicode_block", "field:random"],
+                  "keyid:ed25519", "keyid:ecdsa", "keyid_variant:empty", "keyid_variant:absent", "field:unicode_block", "field:random"],
         min_evals=3000)
